@@ -211,7 +211,7 @@ func processGetter(ctx TaggedStructContext, genMethod fp.Set[string]) fp.Set[str
 
 	if anno, ok := ts.Tags.Get("@fp.GetterPubField").Unapply(); ok {
 
-		publicFields := ts.Fields.Filter(metafp.StructField.Public)
+		publicFields := ts.Fields.Filter(metafp.StructField.Public).FilterNot(func(f metafp.StructField) bool { return f.Name == "_" })
 
 		if publicFields.Size() == 0 {
 			return genMethod
@@ -774,7 +774,7 @@ func processWith(ctx TaggedStructContext, genMethod fp.Set[string]) fp.Set[strin
 
 	if anno, ok := ts.Tags.Get("@fp.WithPubField").Unapply(); ok {
 
-		publicFields := ts.Fields.Filter(metafp.StructField.Public)
+		publicFields := ts.Fields.Filter(metafp.StructField.Public).FilterNot(func(f metafp.StructField) bool { return f.Name == "_" })
 
 		if publicFields.Size() == 0 {
 			return genMethod
